@@ -6,3 +6,6 @@ import LA.Props.C06
 import LA.Props.C08
 import LA.Props.C17
 import LA.Props.C19
+import LA.Props.C09
+import LA.Props.C09Filters
+import LA.Props.C11
